@@ -73,6 +73,12 @@ func c03TripStr() string {
 //   noscript      EVALSHA is answered NOSCRIPT, the EVAL that go-redis sends then is served (PING fails: no monitor event)
 //   noscriptdown  EVALSHA is answered NOSCRIPT, everything else fails (the reload path ends in a store error)
 //   shadown       EVALSHA fails with another error; an EVAL would be served (the code must not send one); PING fails
+// forged replies of round 5 (every outcome kind of the remote party): the server answers EVALSHA WITHOUT running the
+// script (a proxy, a server that is not the one the scripts were written for); PING fails (no monitor event)
+//   strreply      a bulk string: the reply is not an integer (`resp.(int64)` fails)
+//   int3reply     the integer 3: no code of either script
+//   intm1reply    the integer -1
+//   nilreply      a nil bulk reply: go-redis reports redis.Nil (what the token script's `false` looks like)
 func c03LinkMode(name string) int32 {
 	switch name {
 	case "up":
@@ -85,6 +91,14 @@ func c03LinkMode(name string) int32 {
 		return 4
 	case "shadown":
 		return 5
+	case "strreply":
+		return 6
+	case "int3reply":
+		return 7
+	case "intm1reply":
+		return 8
+	case "nilreply":
+		return 9
 	}
 	return -1
 }
@@ -124,6 +138,24 @@ func c03Hook(c *server.Peer, cmd string, args ...string) bool {
 		}
 		c.WriteError(c03DownMsg)
 		return true
+	case 6, 7, 8, 9:
+		if isPing {
+			c.WriteError(c03PingMsg)
+			return true
+		}
+		if isSha || isEval {
+			switch c03Mode.Load() {
+			case 6:
+				c.WriteBulk("verif-not-an-integer")
+			case 7:
+				c.WriteInt(3)
+			case 8:
+				c.WriteInt(-1)
+			default:
+				c.WriteNull()
+			}
+			return true
+		}
 	case 1:
 		c.WriteError(c03DownMsg)
 		return true
@@ -159,6 +191,11 @@ func c03GenPeriod(r *verifh.Rng) verifh.Section {
 		period = r.Pick(0, -7, 1) // divide by zero / negative window / window always 1
 	}
 	nlim := r.Pick(1, 1, 2, 3)
+	// limiters with DIFFERENT key prefixes on one store are independent limits (limiter j has prefix p<j % npre>:)
+	npre := 1
+	if nlim > 1 && r.Chance(1, 3) {
+		npre = r.Range(2, nlim)
+	}
 	nkeys := r.Range(1, 3)
 	win := period // longest possible life in seconds (aligned windows are at most `period`)
 	if win < 1 {
@@ -168,6 +205,7 @@ func c03GenPeriod(r *verifh.Rng) verifh.Section {
 		win = 100000
 	}
 	panics := align == 1 && period == 0
+	noConc := panics || npre > 1 // concurrent ops spread over all limiters: only run when they share one prefix
 	var ops []string
 	nops := r.Range(6, verifh.Scale(40, 70))
 	sinceFirst := 0 // ms since some take, used to aim at the expiry boundary
@@ -180,9 +218,11 @@ func c03GenPeriod(r *verifh.Rng) verifh.Section {
 		case x < 50:
 			ops = append(ops, fmt.Sprintf("takec %s %d", k, r.Intn(nlim)))
 		case x < 53:
-			ops = append(ops, "takex "+k)
+			// every kind of context: cancelled, deadline passed, deadline far away
+			ops = append(ops, r.PickS("takex ", "takex ", "taked ", "taked ", "takef ")+k)
 		case x < 59:
-			if panics {
+			if noConc {
+				ops = append(ops, fmt.Sprintf("takec %s %d", k, r.Intn(nlim)))
 				continue
 			}
 			m := r.Pick(2, 3, quota, quota+1, quota+3, r.Range(2, 8), r.Range(9, 32))
@@ -191,7 +231,8 @@ func c03GenPeriod(r *verifh.Rng) verifh.Section {
 			}
 			ops = append(ops, fmt.Sprintf("ctake %s %d", k, m))
 		case x < 66:
-			if panics {
+			if noConc {
+				ops = append(ops, fmt.Sprintf("takec %s %d", k, r.Intn(nlim)))
 				continue
 			}
 			// goroutines x takes over several limiter instances and keys
@@ -240,9 +281,17 @@ func c03GenPeriod(r *verifh.Rng) verifh.Section {
 		case x < 95:
 			if r.Chance(1, 2) {
 				// the script path of the store client: cache flushed, NOSCRIPT reload served / failing, EVALSHA failing
-				switch r.Intn(4) {
+				switch r.Intn(6) {
 				case 0:
 					ops = append(ops, "ftake "+k)
+				case 4, 5:
+					// the server answers without running the script: string / integer that is no code / nil
+					ops = append(ops, "link "+r.PickS("strreply", "int3reply", "intm1reply", "nilreply"), "take "+k,
+						fmt.Sprintf("takec %s %d", k, r.Intn(nlim)))
+					if r.Bool() {
+						ops = append(ops, r.PickS("takex ", "taked ", "takef ")+k)
+					}
+					ops = append(ops, "link up", "take "+k)
 				case 1:
 					ops = append(ops, "link noscript", "take "+k, fmt.Sprintf("takec %s %d", k, r.Intn(nlim)), "takex "+k)
 					if r.Bool() {
@@ -261,11 +310,11 @@ func c03GenPeriod(r *verifh.Rng) verifh.Section {
 			case 0:
 				ops = append(ops, "take "+k)
 			case 1:
-				if !panics {
+				if !noConc {
 					ops = append(ops, fmt.Sprintf("cptake %d 2 %s", r.Range(2, 6), k))
 				}
 			case 2:
-				ops = append(ops, "takex "+k)
+				ops = append(ops, r.PickS("takex ", "taked ", "takef ")+k)
 			}
 			if r.Chance(1, 3) {
 				ops = append(ops, fmt.Sprintf("ft %d", r.Range(1, win*1000)))
@@ -292,7 +341,30 @@ func c03GenPeriod(r *verifh.Rng) verifh.Section {
 	if align == 1 {
 		tz = r.Pick(0, 20700, -34200, 3600, 43200) // zone offset of time.Local in seconds (Align() adds it to the unix time)
 	}
-	return verifh.Section{Cfg: fmt.Sprintf("kind=period quota=%d period=%d align=%d nlim=%d tz=%d", quota, period, align, nlim, tz), Ops: ops}
+	nopt := align // number of Align() options handed to the constructor (repeating the option changes nothing)
+	if align == 1 && r.Chance(1, 3) {
+		nopt = r.Range(2, 3)
+	}
+	rtype := "node"
+	if r.Chance(1, 12) {
+		// a store client of a type getRedis does not know: every call ends in an error before anything is sent
+		rtype = "bogus"
+		ops = nil
+		for j, n := 0, r.Range(4, 12); j < n; j++ {
+			k := key()
+			switch r.Intn(6) {
+			case 0:
+				ops = append(ops, fmt.Sprintf("ft %d", r.Range(1, win*1000)))
+			case 1:
+				ops = append(ops, r.PickS("takex ", "taked ", "takef ")+k)
+			case 2:
+				ops = append(ops, fmt.Sprintf("takec %s %d", k, r.Intn(nlim)))
+			default:
+				ops = append(ops, "take "+k)
+			}
+		}
+	}
+	return verifh.Section{Cfg: fmt.Sprintf("kind=period quota=%d period=%d align=%d nlim=%d tz=%d npre=%d rtype=%s nopt=%d", quota, period, align, nlim, tz, npre, rtype, nopt), Ops: ops}
 }
 
 func c03GenToken(r *verifh.Rng) verifh.Section {
@@ -441,7 +513,8 @@ func c03GenToken(r *verifh.Rng) verifh.Section {
 		case x < 62:
 			mix()
 		case x < 64:
-			ops = append(ops, fmt.Sprintf("allowx %d %d %d", i, now(), size()))
+			// every kind of context: cancelled, deadline passed, deadline far away
+			ops = append(ops, fmt.Sprintf("%s %d %d %d", r.PickS("allowx", "allowd", "allowd", "allowf"), i, now(), size()))
 		case x < 82:
 			ft()
 		case x < 88:
@@ -460,6 +533,10 @@ func c03GenToken(r *verifh.Rng) verifh.Section {
 				if r.Bool() {
 					// only some instances notice the outage
 					allow(i)
+				} else if r.Bool() {
+					// the request that DISCOVERS the outage has every size (also > burst, also 0), then the bucket is drained locally
+					ops = append(ops, fmt.Sprintf("%s %d %d %d", r.PickS("allow", "allowc", "allowf"), i, now(), r.Pick(burst, burst+1, burst+4, 0, 2, r.Range(1, burst+1))))
+					ops = append(ops, fmt.Sprintf("allow %d %d %d", i, now(), burst))
 				}
 			case 1:
 				switch r.Intn(5) {
@@ -500,7 +577,26 @@ func c03GenToken(r *verifh.Rng) verifh.Section {
 					ops = append(ops, "ping")
 				}
 			} else {
-				switch r.Intn(5) {
+				switch r.Intn(7) {
+				case 5, 6:
+					// the server answers without running the script: a string (-> rescue mode), an integer that is not 1,
+					// a nil reply (-> refused); requests of every size, then back to the ONE bucket
+					m := r.PickS("strreply", "strreply", "int3reply", "intm1reply", "nilreply")
+					ops = append(ops, "link "+m)
+					for q := 0; q < ninst; q++ {
+						ops = append(ops, fmt.Sprintf("allow %d %d %d", q, now(), r.Pick(1, burst, burst+1, burst+3, r.Range(0, burst+1))))
+					}
+					if r.Bool() {
+						ops = append(ops, fmt.Sprintf("%s %d %d %d", r.PickS("allowx", "allowd", "allowf", "allowc"), i, now(), size()))
+					}
+					if m == "strreply" && r.Bool() {
+						ops = append(ops, "ping")
+						allow(i)
+					}
+					ops = append(ops, "up")
+					for q := 0; q < ninst; q++ {
+						allow(q)
+					}
 				case 0:
 					// the server forgot the script: the next call reloads it
 					ops = append(ops, fmt.Sprintf("fallow %d %d %d", i, now(), size()))
@@ -528,7 +624,21 @@ func c03GenToken(r *verifh.Rng) verifh.Section {
 		ops = append(ops, "up")
 		allow(0)
 	}
-	return verifh.Section{Cfg: fmt.Sprintf("kind=token rate=%d burst=%d ninst=%d", rate, burst, ninst), Ops: ops}
+	rtype := "node"
+	if rate > 0 && r.Chance(1, 14) {
+		// a store client of a type getRedis does not know: every script call fails before anything is sent, every
+		// instance decides locally from its first request on, no ping ever succeeds
+		rtype = "bogus"
+		ops = nil
+		for j, n := 0, r.Range(5, 16); j < n; j++ {
+			if r.Chance(1, 4) {
+				ft()
+				continue
+			}
+			ops = append(ops, fmt.Sprintf("%s %d %d %d", r.PickS("allow", "allow", "allowc", "allowx", "allowd", "allowf"), r.Intn(ninst), now(), size()))
+		}
+	}
+	return verifh.Section{Cfg: fmt.Sprintf("kind=token rate=%d burst=%d ninst=%d rtype=%s", rate, burst, ninst, rtype), Ops: ops}
 }
 
 // arguments nothing validates: negative rate / burst / n (rate = 0 is in c03GenToken: the constructor panics).
@@ -552,8 +662,114 @@ func c03GenTokenZ(r *verifh.Rng) verifh.Section {
 	return verifh.Section{Cfg: fmt.Sprintf("kind=tokenz rate=%d burst=%d", rate, burst), Ops: ops}
 }
 
+// Allow() / AllowCtx(ctx): the entry points that read the wall clock themselves (time.Now()) and ask for ONE token.
+// The store clock does not move in these sections (the callers' seconds are real seconds: the whole section lasts
+// milliseconds, well below the keys' ttl); the harness brackets every call with two readings of the wall clock.
+func c03GenTokenNow(r *verifh.Rng) verifh.Section {
+	rate, burst := r.Pick(1, 2, 5, 1), r.Pick(1, 1, 2, 3, 5)
+	ninst := r.Range(1, 3)
+	var ops []string
+	down := false
+	for j, nops := 0, r.Range(6, 24); j < nops; j++ {
+		i := r.Intn(ninst)
+		switch x := r.Intn(20); {
+		case x < 9:
+			ops = append(ops, fmt.Sprintf("allow0 %d", i))
+		case x < 12:
+			ops = append(ops, fmt.Sprintf("allowctx0 %d", i))
+		case x < 14:
+			ops = append(ops, fmt.Sprintf("%s %d", r.PickS("allowx0", "allowd0", "allowf0"), i))
+		case x < 16 && !down:
+			// every reply kind of the server through the wall-clock entry points: served through the EVAL fallback,
+			// forged string (-> local limiter) / integer that is not 1 / nil (-> refused)
+			m := r.PickS("noscript", "strreply", "int3reply", "intm1reply", "nilreply")
+			ops = append(ops, "link "+m)
+			for q := 0; q < ninst; q++ {
+				ops = append(ops, fmt.Sprintf("%s %d", r.PickS("allow0", "allowctx0", "allowf0"), q))
+			}
+			if r.Bool() {
+				ops = append(ops, fmt.Sprintf("%s %d", r.PickS("allowx0", "allowd0"), i))
+			}
+			ops = append(ops, "up", fmt.Sprintf("allow0 %d", i))
+		case x < 17:
+			// drain through both entry points over all instances
+			for q := 0; q < burst+2; q++ {
+				ops = append(ops, fmt.Sprintf("%s %d", r.PickS("allow0", "allowctx0"), q%ninst))
+			}
+		default:
+			if !down {
+				ops = append(ops, "down")
+				for q := 0; q < burst+2; q++ {
+					ops = append(ops, fmt.Sprintf("%s %d", r.PickS("allow0", "allowctx0"), i))
+				}
+			} else {
+				ops = append(ops, "up")
+			}
+			down = !down
+		}
+	}
+	if down {
+		ops = append(ops, "up", "allow0 0")
+	}
+	return verifh.Section{Cfg: fmt.Sprintf("kind=tokennow rate=%d burst=%d ninst=%d", rate, burst, ninst), Ops: ops}
+}
+
+// several TokenLimiter KEYS on one store, each with its own rate and burst: every key is its own bucket.
+// Instance i is NewTokenLimiter(rates[i % nkeys], bursts[i % nkeys], store, c03KeyName(i % nkeys)).
+func c03KeyName(q int) string { return []string{"a", "ab", "", "a}.ts"}[q%4] }
+
+func c03GenTokenKeys(r *verifh.Rng) verifh.Section {
+	nkeys := r.Range(2, 4)
+	ninst := nkeys + r.Range(0, 2)
+	var rates, bursts []string
+	maxTtl := 1
+	bs := make([]int, nkeys)
+	for q := 0; q < nkeys; q++ {
+		rate, burst := r.Pick(1, 2, 3, 5, 7), r.Pick(1, 2, 3, 5, 10, 0)
+		if r.Chance(1, 4) && q > 0 {
+			rate, burst = verifh.Atoi(rates[0]), verifh.Atoi(bursts[0]) // the same configuration under another key
+		}
+		bs[q] = burst
+		rates, bursts = append(rates, strconv.Itoa(rate)), append(bursts, strconv.Itoa(burst))
+		if t := 2 * burst / rate; t > maxTtl {
+			maxTtl = t
+		}
+	}
+	clockMs := 0
+	var ops []string
+	for j, nops := 0, r.Range(8, verifh.Scale(30, 60)); j < nops; j++ {
+		i := r.Intn(ninst)
+		b := bs[i%nkeys]
+		now := (int64(c03Epoch)*1000 + int64(clockMs)) * 1000000
+		switch x := r.Intn(10); {
+		case x < 6:
+			ops = append(ops, fmt.Sprintf("allow %d %d %d", i, now, r.Pick(1, 1, 1, b, b+1, 0, r.Range(1, b+1))))
+		case x == 7:
+			// goroutines x calls over ALL instances of ALL keys at one instant: every key grants what ITS bucket holds
+			g := r.Pick(ninst, 2*ninst, r.Range(2, 12))
+			c := r.Pick(1, 2, 3)
+			ops = append(ops, fmt.Sprintf("kstorm %d %d %d %d", now, r.Pick(1, 1, 2, 0), g, c))
+		case x < 7:
+			// drain one key through all its instances; the other keys must not notice
+			for q := 0; q < b+1 && q < 12; q++ {
+				ops = append(ops, fmt.Sprintf("allow %d %d 1", i%nkeys+nkeys*(q%((ninst-i%nkeys+nkeys-1)/nkeys)), now))
+			}
+			ops = append(ops, fmt.Sprintf("allow %d %d 1", (i+1)%ninst, now))
+		default:
+			ms := r.Pick(1000, 999, 1, r.Range(1, 1500), r.Range(1, maxTtl*1000+100))
+			clockMs += ms
+			ops = append(ops, fmt.Sprintf("ft %d", ms))
+		}
+	}
+	return verifh.Section{Cfg: fmt.Sprintf("kind=tokenkeys nkeys=%d ninst=%d rates=%s bursts=%s", nkeys, ninst,
+		strings.Join(rates, ","), strings.Join(bursts, ",")), Ops: ops}
+}
+
 func c03Gen(r *verifh.Rng) []verifh.Section {
 	var secs []verifh.Section
+	for i, nz := 0, verifh.Scale(8, 50); i < nz; i++ {
+		secs = append(secs, c03GenTokenKeys(r))
+	}
 	for i, nz := 0, verifh.Scale(10, 60); i < nz; i++ {
 		secs = append(secs, c03GenTokenZ(r))
 	}
@@ -563,6 +779,10 @@ func c03Gen(r *verifh.Rng) []verifh.Section {
 	}
 	for i := 0; i < nt; i++ {
 		secs = append(secs, c03GenToken(r))
+	}
+	// last: by now the process is seconds old (a clock reading cached at start-up is visibly stale)
+	for i, nz := 0, verifh.Scale(8, 50); i < nz; i++ {
+		secs = append(secs, c03GenTokenNow(r))
 	}
 	return secs
 }
@@ -592,6 +812,8 @@ func c03ErrClass(err error) string {
 		return "unknowncode"
 	case errors.Is(err, context.Canceled):
 		return "canceled"
+	case errors.Is(err, context.DeadlineExceeded):
+		return "deadline"
 	default:
 		return "err"
 	}
@@ -623,6 +845,17 @@ func c03Cancelled() context.Context {
 	ctx, cancel := context.WithCancel(context.Background())
 	cancel()
 	return ctx
+}
+
+// a context whose deadline passed before the call, and one whose deadline is far later than any call lasts
+func c03Expired() context.Context {
+	ctx, cancel := context.WithDeadline(context.Background(), time.Now().Add(-time.Hour))
+	_ = cancel // the deadline has passed: nothing to release
+	return ctx
+}
+
+func c03Future() (context.Context, context.CancelFunc) {
+	return context.WithDeadline(context.Background(), time.Now().Add(time.Hour))
 }
 
 func TestVerifC03(t *testing.T) {
@@ -658,11 +891,17 @@ func TestVerifC03(t *testing.T) {
 		warm() // every section starts with both scripts in the server's cache (an earlier section may have flushed them)
 		mr.FlushAll()
 		c03CleanBreaker()
+		secStore := store
+		if cfg.Str("rtype", "node") == "bogus" {
+			secStore = redis.New(mr.Addr(), func(r *redis.Redis) { r.Type = "bogus" })
+		}
 		switch cfg.Str("kind", "") {
 		case "period":
-			return c03Period(mr, store, cfg)
-		case "token":
-			return c03Token(mr, store, cfg)
+			return c03Period(mr, secStore, cfg)
+		case "token", "tokennow":
+			return c03Token(mr, secStore, cfg)
+		case "tokenkeys":
+			return c03TokenKeys(mr, store, cfg)
 		case "tokenz":
 			l := NewTokenLimiter(cfg.Int("rate", 1), cfg.Int("burst", 1), store, "k")
 			return func(op []string) string {
@@ -690,31 +929,42 @@ func c03LocalUnix() int64 {
 }
 
 func c03Period(mr *miniredis.Miniredis, store *redis.Redis, cfg verifh.Cfg) (func(op []string) string, func()) {
-	const prefix = "p:"
 	nlim := cfg.Int("nlim", 1)
 	if nlim < 1 {
 		nlim = 1
 	}
+	npre := cfg.Int("npre", 1)
+	if npre < 1 {
+		npre = 1
+	}
+	pre := func(j int) string { return fmt.Sprintf("p%d:", j%npre) }
+	prefix := pre(0)
 	align := cfg.Int("align", 0) == 1
 	lims := make([]*PeriodLimit, nlim)
+	nopt := cfg.Int("nopt", cfg.Int("align", 0))
 	for i := range lims {
-		if align {
-			lims[i] = NewPeriodLimit(cfg.Int("period", 1), cfg.Int("quota", 1), store, prefix, Align())
-		} else {
-			lims[i] = NewPeriodLimit(cfg.Int("period", 1), cfg.Int("quota", 1), store, prefix)
+		// every shape of the option list: absent, one Align(), the option repeated
+		var opts []PeriodOption
+		for q := 0; q < nopt; q++ {
+			opts = append(opts, Align())
 		}
+		if i%2 == 1 && nopt == 0 {
+			opts = []PeriodOption{} // empty, non-nil variadic
+		}
+		lims[i] = NewPeriodLimit(cfg.Int("period", 1), cfg.Int("quota", 1), store, pre(i), opts...)
 	}
-	one := func(k string, f func() (int, error)) string {
+	oneP := func(j int, k string, f func() (int, error)) string {
 		c03ResetTrips()
 		u0 := c03LocalUnix()
 		code, err := f()
 		u1 := c03LocalUnix()
-		s := fmt.Sprintf("%d %s %s %s", code, c03ErrClass(err), c03Dump(mr, "cnt", prefix+k), c03TripStr())
+		s := fmt.Sprintf("%d %s %s %s", code, c03ErrClass(err), c03Dump(mr, "cnt", pre(j)+k), c03TripStr())
 		if align {
 			s += fmt.Sprintf(" u=%d,%d", u0, u1)
 		}
 		return s
 	}
+	one := func(k string, f func() (int, error)) string { return oneP(0, k, f) }
 	if tz := cfg.Int("tz", 0); tz != 0 {
 		// Align() reads the zone of time.Local: a zone with an offset makes `+ int64(offset)` observable
 		time.Local = time.FixedZone("verif", tz)
@@ -751,10 +1001,19 @@ func c03Period(mr *miniredis.Miniredis, store *redis.Redis, cfg verifh.Cfg) (fun
 			if j < 0 || j >= nlim {
 				return "bad-op"
 			}
-			return one(op[1], func() (int, error) { return lims[j].TakeCtx(context.Background(), op[1]) })
+			return oneP(j, op[1], func() (int, error) { return lims[j].TakeCtx(context.Background(), op[1]) })
 		case "takex":
 			return one(op[1], func() (int, error) { return lims[0].TakeCtx(c03Cancelled(), op[1]) })
+		case "taked":
+			return one(op[1], func() (int, error) { return lims[0].TakeCtx(c03Expired(), op[1]) })
+		case "takef":
+			ctx, cancel := c03Future()
+			defer cancel()
+			return one(op[1], func() (int, error) { return lims[0].TakeCtx(ctx, op[1]) })
 		case "ctake":
+			if npre > 1 {
+				return "bad-op"
+			}
 			if c03SkipConcurrent() {
 				return "skipped-link" // concurrent NOSCRIPT answers trip the client's breaker (finding 3): not run
 			}
@@ -795,6 +1054,9 @@ func c03Period(mr *miniredis.Miniredis, store *redis.Redis, cfg verifh.Cfg) (fun
 			return s
 		case "cptake":
 			// g goroutines, goroutine j takes `c` permits of key keys[j % len] on limiter j % nlim
+			if npre > 1 {
+				return "bad-op"
+			}
 			if c03SkipConcurrent() {
 				return "skipped-link"
 			}
@@ -986,6 +1248,12 @@ func c03Token(mr *miniredis.Miniredis, store *redis.Redis, cfg verifh.Cfg) (func
 			return l.AllowNCtx(context.Background(), time.Unix(0, ns), n)
 		case "allowx":
 			return l.AllowNCtx(c03Cancelled(), time.Unix(0, ns), n)
+		case "allowd":
+			return l.AllowNCtx(c03Expired(), time.Unix(0, ns), n)
+		case "allowf":
+			ctx, cancel := c03Future()
+			defer cancel()
+			return l.AllowNCtx(ctx, time.Unix(0, ns), n)
 		}
 		return l.AllowN(time.Unix(0, ns), n)
 	}
@@ -1056,7 +1324,7 @@ func c03Token(mr *miniredis.Miniredis, store *redis.Redis, cfg verifh.Cfg) (func
 			l.rescueLock.Unlock()
 			l.startMonitor()
 			return recoverAll()
-		case "allow", "allowc", "allowx", "fallow":
+		case "allow", "allowc", "allowx", "allowd", "allowf", "fallow":
 			i := verifh.Atoi(op[1])
 			if i < 0 || i >= ninst {
 				return "bad-op"
@@ -1076,6 +1344,39 @@ func c03Token(mr *miniredis.Miniredis, store *redis.Redis, cfg verifh.Cfg) (func
 				res = "ok"
 			}
 			return fmt.Sprintf("%s a=%s s=%s%s %s %s", res, b2s(before), b2s(a), b2s(m), dump(), trips)
+		case "allow0", "allowctx0", "allowx0", "allowd0", "allowf0":
+			// the entry points that read the wall clock themselves and ask for one token
+			i := verifh.Atoi(op[1])
+			if i < 0 || i >= ninst {
+				return "bad-op"
+			}
+			l := lims[i]
+			before, _ := flags(l)
+			c03ResetTrips()
+			t0 := time.Now().UnixNano()
+			var ok bool
+			switch op[0] {
+			case "allow0":
+				ok = l.Allow()
+			case "allowctx0":
+				ok = l.AllowCtx(context.Background())
+			case "allowx0":
+				ok = l.AllowCtx(c03Cancelled())
+			case "allowd0":
+				ok = l.AllowCtx(c03Expired())
+			default:
+				ctx, cancel := c03Future()
+				ok = l.AllowCtx(ctx)
+				cancel()
+			}
+			t1 := time.Now().UnixNano()
+			trips := c03TripStr()
+			a, m := flags(l)
+			res := "no"
+			if ok {
+				res = "ok"
+			}
+			return fmt.Sprintf("%s a=%s s=%s%s %s %s w=%d,%d", res, b2s(before), b2s(a), b2s(m), dump(), trips, t0, t1)
 		case "callow":
 			if c03SkipConcurrent() {
 				return "skipped-link"
@@ -1194,6 +1495,75 @@ func c03Token(mr *miniredis.Miniredis, store *redis.Redis, cfg verifh.Cfg) (func
 	}
 	return step, func() {
 		c03Mode.Store(0)
+		if cfg.Str("rtype", "node") == "bogus" {
+			return // no ping can ever succeed: the monitors of this section are left behind (they only call getRedis)
+		}
 		settle(20 * time.Second)
 	}
+}
+
+func c03TokenKeys(mr *miniredis.Miniredis, store *redis.Redis, cfg verifh.Cfg) (func(op []string) string, func()) {
+	nkeys, ninst := cfg.Int("nkeys", 1), cfg.Int("ninst", 1)
+	rates, bursts := strings.Split(cfg.Str("rates", "1"), ","), strings.Split(cfg.Str("bursts", "1"), ",")
+	if nkeys < 1 || len(rates) != nkeys || len(bursts) != nkeys || ninst < 1 || ninst > 16 {
+		return func(op []string) string { return "bad-section" }, nil
+	}
+	lims := make([]*TokenLimiter, ninst)
+	for i := range lims {
+		lims[i] = NewTokenLimiter(verifh.Atoi(rates[i%nkeys]), verifh.Atoi(bursts[i%nkeys]), store, c03KeyName(i%nkeys))
+	}
+	return func(op []string) string {
+		c03CleanBreaker()
+		switch op[0] {
+		case "ft":
+			mr.FastForward(time.Duration(verifh.Atoi(op[1])) * time.Millisecond)
+			return "ok"
+		case "allow":
+			i := verifh.Atoi(op[1])
+			if i < 0 || i >= ninst {
+				return "bad-op"
+			}
+			res := "no"
+			if lims[i].AllowN(time.Unix(0, verifh.Atoi64(op[2])), verifh.Atoi(op[3])) {
+				res = "ok"
+			}
+			k := c03KeyName(i % nkeys)
+			return fmt.Sprintf("%s a=%d %s %s", res, atomic.LoadUint32(&lims[i].redisAlive),
+				c03Dump(mr, "tok", "{"+k+"}.tokens"), c03Dump(mr, "ts", "{"+k+"}.ts"))
+		case "kstorm":
+			// g goroutines x c calls of (ns, n); goroutine j uses instance j % ninst; grants are counted per KEY
+			ns, n, g, c := verifh.Atoi64(op[1]), verifh.Atoi(op[2]), verifh.Atoi(op[3]), verifh.Atoi(op[4])
+			if g < 1 || c < 1 || g*c > 256 {
+				return "bad-op"
+			}
+			grants := make([]int64, nkeys)
+			var wg sync.WaitGroup
+			start := make(chan struct{})
+			for j := 0; j < g; j++ {
+				wg.Add(1)
+				go func(j int) {
+					defer wg.Done()
+					<-start
+					for q := 0; q < c; q++ {
+						if lims[j%ninst].AllowN(time.Unix(0, ns), n) {
+							atomic.AddInt64(&grants[(j%ninst)%nkeys], 1)
+						}
+					}
+				}(j)
+			}
+			close(start)
+			wg.Wait()
+			parts := make([]string, 0, 3*nkeys)
+			for q := 0; q < nkeys; q++ {
+				k := c03KeyName(q)
+				parts = append(parts, fmt.Sprintf("g%d=%d", q, grants[q]), c03Dump(mr, "tok", "{"+k+"}.tokens"), c03Dump(mr, "ts", "{"+k+"}.ts"))
+			}
+			alive := 0
+			for _, l := range lims {
+				alive += int(atomic.LoadUint32(&l.redisAlive))
+			}
+			return fmt.Sprintf("alive=%d %s", alive, strings.Join(parts, " "))
+		}
+		return "bad-op"
+	}, nil
 }
